@@ -67,20 +67,27 @@ Theorem C10_deaths_balance : forall p, Inv p ->
 Proof. exact step_die_balance. Qed.
 Print Assumptions C10_deaths_balance.
 
-(* the recorded flow new_deaths = #(ti_dead == ti) misses deaths requested after the resolution phase:
-   witness history (agent 1 requested at step 0 AFTER step_die; it dies at step 1 with ti_dead = 0) *)
-Definition recorded_new_deaths (p : ppl) : nat :=
-  length (filter (fun u => match get_raw (raw (ti_dead p)) u with V q => Qeq_bool q (inject_Z (ti p)) | G => false end) (auids p)).
-Theorem C10_late_request_uncounted_refuted :
+(* the recorded flow new_deaths = #(ti_dead == ti) over the active agents is exactly the deaths carried out in the step (step_die stamps ti_dead with
+   the step at which it kills), whenever they were requested ... *)
+Theorem C10_recorded_deaths_are_the_executed_deaths : forall p, Inv p -> Qeq_bool (inject_Z (ti p)) (nanv (ti_dead p)) = false ->
+  recorded_new_deaths (fst (step_die p)) = length (snd (step_die p)).
+Proof. exact recorded_deaths_are_executed_deaths. Qed.
+(* ... hence the balance of the property for a step that starts with living active agents only: alive before = alive after + recorded deaths *)
+Theorem C10_alive_balance_with_recorded_deaths : forall p, Inv p -> Qeq_bool (inject_Z (ti p)) (nanv (ti_dead p)) = false ->
+  (forall u, In u (auids p) -> is_alive p u = true) -> n_alive p = n_alive (fst (step_die p)) + recorded_new_deaths (fst (step_die p)).
+Proof. exact alive_balance_with_recorded_deaths. Qed.
+Print Assumptions C10_recorded_deaths_are_the_executed_deaths. Print Assumptions C10_alive_balance_with_recorded_deaths.
+(* the history that used to go uncounted (agent 1 requested at step 0 AFTER the resolution phase): it dies at step 1 and is recorded at step 1 *)
+Theorem C10_late_request_counted_at_the_next_step :
   let p0 := init_people 3 in
   let p1 := request_death (fst (step_die p0)) [1] in                 (* requested after resolution of step 0 *)
   let rec0 := recorded_new_deaths (fst (step_die p0)) in             (* recorded at step 0 *)
   let p2 := tick (remove_dead p1) in
   let r := step_die p2 in
   let rec1 := recorded_new_deaths (fst r) in                         (* recorded at step 1 *)
-  snd r = [1] /\ rec0 = 0 /\ rec1 = 0 /\ n_alive (fst r) = 2.
+  snd r = [1] /\ rec0 = 0 /\ rec1 = 1 /\ n_alive (fst r) = 2.
 Proof. vm_compute. repeat split; reflexivity. Qed.
-Print Assumptions C10_late_request_uncounted_refuted.
+Print Assumptions C10_late_request_counted_at_the_next_step.
 
 (* non-vacuity: a history with two reallocations, a late-registered state, overlapping requests *)
 Example C10_nonvacuous :
